@@ -55,6 +55,10 @@ def lines():
         rows.append(f'({_s(st.value)}, {_strs(m.name for m in S.StatType.stats_for_stype(st))})')
     out.append('def statsFor : List (String × List String) :=\n  [' + ',\n   '.join(rows) + ']')
     out.append('')
+    out.append('/-- stypes whose parent is `embedding` (merged into the embedding group), declaration order -/')
+    out.append(f'def embGroup : List String := '
+               f'{_strs(m.value for m in torch_frame.stype if m.parent == torch_frame.stype.embedding)}')
+    out.append('')
     out.append('/-- `_default_values`, one row per `StatType` in declaration order (missing key -> "absent") -/')
     rows = []
     for m in S.StatType:
